@@ -3,7 +3,7 @@
 # carrying it (never /repo itself) and prints one line per change.
 #   seedregress.sh [name ...]      (default: all of /verif/seeded)
 cd /verif
-names=${@:-$(ls seeded)}
+names=${@:-$(ls -d seeded/*/ | xargs -n1 basename)}
 for n in $names; do
   prop=$(python3 -c "import json;print(json.load(open('seeded/$n/meta.json'))['prop'])")
   w=$(sh tools/seedapply.sh $n | tail -1)
